@@ -61,6 +61,10 @@ def items():
     texts["bad:noend"] = texts["v2:ethanol-d"].replace("M  END", "M  EN")
     texts["bad:bondindex"] = texts["v3:ethanol-d"].replace("M  V30 1 1 1 2", "M  V30 1 1 1 9")
     texts["bad:short"] = "x\ny"
+    # query/placeholder atom symbols the library does not know: must fail the same way whatever happened before
+    texts["bad:pseudo-RX"] = MF.v3000_text(Mol([Atom("C"), Atom("R"), Atom("X")], [(0, 1, 1), (0, 2, 1)]))
+    texts["bad:pseudo-XR"] = MF.v3000_text(Mol([Atom("X"), Atom("C"), Atom("R")], [(0, 1, 1), (1, 2, 1)]))
+    texts["bad:pseudo-X"] = MF.v3000_text(Mol([Atom("C"), Atom("X")], [(0, 1, 1)]))
     corpus = os.path.join(os.environ.get("TUCAN_REPO", "/repo"), "tests", "molfiles")
     for name in ("TEMPO", "tnt", "water-d2", "chromocene-multi-attachment", "cubane", "Petersen_graph", "C60_C13", "EMIM-BF4", "FeCO5", "benzene"):
         p = os.path.join(corpus, name, name + ".mol")
@@ -102,6 +106,12 @@ def items():
         lines[1] = "<timestamp masked>"
         return "\n".join(lines)
 
+    def op_write_calc(t):
+        from tucan.io import graph_from_molfile_text, graph_to_molfile
+        lines = graph_to_molfile(graph_from_molfile_text(t), calc_coordinates=True).split("\n")
+        lines[1] = "<timestamp masked>"
+        return "\n".join(lines)
+
     def op_parse(s):
         from tucan.parser.parser import graph_from_tucan
         return graph_from_tucan(s)
@@ -123,6 +133,8 @@ def items():
             if name.startswith("bad:") and opname != "read":
                 continue
             out.append((f"{opname}|{name}", (lambda op=op, t=t: op(t))))
+    for name in ("v3:salt", "v3:ethanol-d", "v3:isolated", "v3:cube"):
+        out.append((f"write-calc|{name}", (lambda t=texts[name]: op_write_calc(t))))
     for s in TUCAN_STRINGS:
         out.append((f"parse|{s}", (lambda s=s: op_parse(s))))
         out.append((f"norm|{s}", (lambda s=s: op_norm(s))))
